@@ -49,8 +49,16 @@ func escape(b *bytes.Buffer, r rune, force bool) {
 			b.WriteString(s)
 			break
 		}
+		if r > 0xFFFF {
+			// \u takes exactly four hex digits; a rune beyond that is not special to the
+			// parser and is written as itself
+			b.WriteRune(r)
+			break
+		}
 		b.WriteString(`\u`)
-		b.WriteString(strconv.FormatInt(int64(r), 16))
+		s := strconv.FormatInt(int64(r), 16)
+		b.WriteString(strings.Repeat("0", 4-len(s)))
+		b.WriteString(s)
 	}
 }
 
